@@ -118,6 +118,39 @@ h!(h_c14_mirror_d2_k8, 11, repair_generic(&Mirror::from_params(), 2, 8.0, true))
 // @h tier=thorough bound="domain [0.001,1000], every finite x within 8 widths; loop bound 11 = termination" unwind=11 cost=4 unwind_is_violation=1
 h!(h_c14_mirror_d3_k8, 11, repair_generic(&Mirror::from_params(), 3, 8.0, true));
 
+/// Two dimensions of *different* width and offset: each coordinate is repaired against its own range
+/// (a repair that hoists the width or the bounds of one dimension out of the per-coordinate loop is
+/// invisible on hypercubes and on one-dimensional domains).
+fn repair_dim2<B: BoundaryConstraint<RealP>>(op: &B, exact_bounds: bool) {
+    let ((a0, b0), (a1, b1)) = ((0.0, 10.0), (-3.0, -1.0));
+    let p = RealP::d2(a0, b0, a1, b1);
+    let (x, y) = (sym::finite_f64(), sym::finite_f64());
+    sym::assume(within_k(x, a0, b0, 1.0) && within_k(y, a1, b1, 2.0));
+    let mut s = vec![x, y];
+    let mut rng = sym_random(0);
+    op.constrain(&mut s, &p, &mut rng);
+    let (r0, r1) = (s[0], s[1]);
+    let (t0, t1) = if exact_bounds { (0.0, 0.0) } else { ((b0 - a0) * 1e-12, (b1 - a1) * 1e-12) };
+    assert!(s.len() == 2, "dimension kept");
+    assert!(r0 >= a0 - t0 && r0 <= b0 + t0, "repair: first coordinate within its own bounds");
+    assert!(r1 >= a1 - t1 && r1 <= b1 + t1, "repair: second coordinate within its own bounds");
+    if x >= a0 && x <= b0 {
+        assert!(r0.to_bits() == x.to_bits(), "repair: inside coordinate unchanged (first dimension)");
+    }
+    if y >= a1 && y <= b1 {
+        assert!(r1.to_bits() == y.to_bits(), "repair: inside coordinate unchanged (second dimension)");
+    }
+    op.constrain(&mut s, &p, &mut rng);
+    assert!(s[0].to_bits() == r0.to_bits() && s[1].to_bits() == r1.to_bits(), "repair: idempotent");
+    vcover!(x >= a0 && x <= b0 && y < a1, "first inside, second below");
+    vcover!(x > b0 && y > b1, "both above");
+    std::mem::forget((s, p, rng));
+}
+// @h tier=quick bound="domains [0,10]x[-3,-1] (different widths); every finite pair with x within 1 width, y within 2 widths" unwind=5 cost=3
+h!(h_c14_toroidal_dim2_mixed, 5, repair_dim2(&Toroidal::from_params(), false));
+// @h tier=quick bound="domains [0,10]x[-3,-1] (different widths); every finite pair with x within 1 width, y within 2 widths; loop bound 5 = termination" unwind=5 cost=3 unwind_is_violation=1
+h!(h_c14_mirror_dim2_mixed, 5, repair_dim2(&Mirror::from_params(), true));
+
 /// One-tailed normal correction, draw-free cases: a coordinate inside the closed domain needs no
 /// sample, is unchanged, and the operator returns.
 fn one_tailed_inside(dom: usize) {
